@@ -1,7 +1,7 @@
 // H1 — the real quill::Sink filter machinery (add_filter / set_log_level_filter on frontend threads against
 // apply_all_filters on the backend thread) compiled against the N-thread atomic shim (C16, concurrency part).
 //
-//   h1_filters gen <seed> <traces> <steps>     generated schedules (+ the directed windows first)
+//   h1_filters gen <seed> <traces> <steps> [tag]   generated schedules (+ the directed windows first); tag prefixes the trace ids
 //   h1_filters replay <file>                   re-run the traces described in <file> (init/prog/sched lines)
 //
 // Every atomic access of `_new_filter`, `_log_level` and of the Spinlock flag is a scheduling point; a thread spinning
@@ -764,8 +764,10 @@ int main(int argc, char** argv)
   {
     Rng rng(std::stoull(argv[2]));
     unsigned const traces = static_cast<unsigned>(std::stoul(argv[3])), steps = static_cast<unsigned>(std::stoul(argv[4]));
+    std::string const tag = argc >= 6 ? argv[5] : "";
     for (int w = 1; w <= 8; ++w) { descs.push_back(directed_desc(w)); }
     for (unsigned i = 0; i < traces; ++i) { descs.push_back(random_desc(rng, i, steps / 2 + static_cast<unsigned>(rng.below(steps / 2 + 1)))); }
+    for (auto& d : descs) { d.id = tag + d.id; }
   }
   else if (argc >= 3 && std::string{argv[1]} == "replay")
   {
@@ -773,7 +775,7 @@ int main(int argc, char** argv)
   }
   else
   {
-    std::cerr << "usage: h1_filters gen <seed> <traces> <steps> | h1_filters replay <file>\n";
+    std::cerr << "usage: h1_filters gen <seed> <traces> <steps> [tag] | h1_filters replay <file>\n";
     return 2;
   }
   for (auto const& d : descs)
